@@ -208,6 +208,8 @@ def okDictRtN : Nat → String → PyVal → PyVal → Bool
               | some (.int _), some (.int _) => pyEq dv ov
               | _, _ => (match ov with | .int _ => true | _ => false))
            | .parent => okParent dv ov)
+        -- `"parent_or_seq_chunk_parent" in vals`: the importer tolerates a dictionary without the parent key
+        | none, some _ => (match rule with | .parent => true | _ => false)
         | _, _ => false
     | _ => false
 
